@@ -42,6 +42,8 @@ def _blk(e, ind):
         return f"{pad}let {{{', '.join(e['xs'])}}} = {expr(e['a'], ind)}\n" + _blk(e["b"], ind)
     if k == "asg":
         return f"{pad}{e['x']} = {expr(e['a'], ind)}\n" + _blk(e["b"], ind)
+    if k == "asgf":
+        return f"{pad}{e['x']}.{e['n']} = {expr(e['a'], ind)}\n" + _blk(e["b"], ind)
     return pad + expr(e, ind)
 
 
@@ -77,6 +79,25 @@ def expr(e, ind=0):
         return "{\n" + f"{pad}({e['x']} = {expr(e['a'], ind + 1)})\n" + _blk(e["b"], ind + 1) + "\n" + "  " * ind + "}"
     if k in ("let", "lett", "letr"):
         return block(e, ind)
+    if k == "asgf":
+        # (a block that starts with `x.n = ...` is not mistaken for a record literal: `.` follows the name)
+        return block(e, ind)
+    if k == "recupd":
+        return "{ " + expr(e["a"], ind) + " <- " + ", ".join(f"{f['n']} = {expr(f['a'], ind)}" for f in e["fs"]) + " }"
+    if k == "arr":
+        return "[" + ", ".join(expr(x, ind) for x in e["es"]) + "]"
+    if k == "idx":
+        a = e["a"]
+        base = expr(a, ind)
+        if a["k"] not in ("var", "call", "app"):
+            base = f"({base})"
+        return f"{base}[{expr(e['i'], ind)}]"
+    if k == "len":
+        return f"len({expr(e['a'], ind)})"
+    if k == "match":
+        pad = "  " * (ind + 1)
+        arms = "".join(f"{pad}{key} => {block(arm, ind + 1)}\n" for key, arm in zip(e["keys"], e["arms"]))
+        return f"(match ({expr(e['s'], ind)}) {{\n{arms}{pad}_ => {block(e['d'], ind + 1)}\n{'  ' * ind}}})"
     if k == "tup":
         return _open() + _comma().join(expr(x, ind) for x in e["es"]) + _close()
     if k == "proj":
